@@ -523,4 +523,517 @@ theorem sendPending_fl (fuel : Nat) : ∀ (g : Led) (c : Conn) (sid : Nat), FL g
               · refine spend_more h sid pb hm _ ?_ ?_ ?_ ?_ ?_ ?_ _ _ (fun g' hg' => ih g' _ sid hg') <;>
                   first | rfl | exact .inl rfl | exact .inr rfl | exact hpend _
 
+/-! ## steps of the write loop against the ledgers -/
+
+/-- every stream's DATA among `fs` fits what the stream was allowed when `fs` was written -/
+def Emit (g : Led) (fs : List OutFrame) : Prop :=
+  ∀ sid, 0 < dataOn sid fs → (g.strSent sid + dataOn sid fs : Int) ≤ g.iws + g.strInc sid
+
+/-- what a piece of the write loop establishes: the ledgers moved by the frames it wrote match the windows it left,
+each stream's DATA was within the stream's allowance, no DATA frame is longer than `m` -/
+def WrOK (g : Led) (m : Nat) (res : Conn × List OutFrame) : Prop :=
+  FL (g.wrote res.2) res.1 ∧ Emit g res.2 ∧ (∀ f ∈ res.2, dataLen f ≤ m)
+
+theorem SendOK.wrOK {g : Led} {sid m : Nat} {res : Conn × List OutFrame} (h : SendOK g sid m res) (ao : AllOn sid res.2) :
+    WrOK g m res := by
+  refine ⟨h.1, ?_, h.2.2⟩
+  intro s hs
+  by_cases e : s = sid
+  · subst e; exact h.2.1 hs
+  · rw [allOn_other ao s e] at hs; omega
+
+theorem wrOK_nil {g : Led} {c : Conn} (m : Nat) (h : FL g c) : WrOK g m (c, []) := by
+  refine ⟨by rw [Led.wrote_nil]; exact h, fun s hs => absurd hs (by simp [dataOn]), fun f hf => nomem hf⟩
+
+theorem WrOK.append {g : Led} {m : Nat} {c1 c2 : Conn} {a b : List OutFrame} (h1 : WrOK g m (c1, a))
+    (h2 : WrOK (g.wrote a) m (c2, b)) : WrOK g m (c2, a ++ b) := by
+  obtain ⟨_, e1, s1⟩ := h1
+  obtain ⟨f2, e2, s2⟩ := h2
+  refine ⟨by rw [← Led.wrote_append]; exact f2, ?_, ?_⟩
+  · intro sid hs
+    simp only at hs ⊢
+    rw [dataOn_append] at hs ⊢
+    by_cases hb : 0 < dataOn sid b
+    · have := e2 sid hb
+      simp only [Led.wrote] at this
+      omega
+    · have h0 : dataOn sid b = 0 := by omega
+      rw [h0] at hs ⊢
+      have := e1 sid (by simpa using hs)
+      simp only at this
+      omega
+  · intro f hf
+    rcases List.mem_append.mp hf with hf | hf
+    · exact s1 f hf
+    · exact s2 f hf
+
+/-- frames that carry no DATA octets before and after change nothing -/
+theorem WrOK.pad {g : Led} {m : Nat} {c : Conn} {b : List OutFrame} (h : WrOK g m (c, b)) {a d : List OutFrame}
+    (ha : NoDat a) (hd : NoDat d) : WrOK g m (c, a ++ b ++ d) := by
+  obtain ⟨f1, e1, s1⟩ := h
+  have hw : g.wrote (a ++ b ++ d) = g.wrote b := by
+    rw [← Led.wrote_append, ← Led.wrote_append, Led.wrote_noDat g ha, Led.wrote_noDat _ hd]
+  refine ⟨by rw [hw]; exact f1, ?_, ?_⟩
+  · intro sid hs
+    simp only [dataOn_append, noDat_on ha, noDat_on hd, Nat.zero_add, Nat.add_zero] at hs ⊢
+    exact e1 sid hs
+  · intro f hf
+    simp only [List.mem_append] at hf
+    rcases hf with (hf | hf) | hf
+    · rw [ha f hf]; exact Nat.zero_le _
+    · exact s1 f hf
+    · rw [hd f hf]; exact Nat.zero_le _
+
+theorem sendPending_mfs (fuel : Nat) (c : Conn) (sid : Nat) : (sendPending fuel c sid).1.maxFrameSize = c.maxFrameSize := by
+  obtain ⟨p, w, q, hs⟩ := sendPending_shape fuel c sid; rw [hs]
+
+theorem sendPending_wrOK (fuel : Nat) (g : Led) (c : Conn) (sid : Nat) (h : FL g c) :
+    WrOK g c.maxFrameSize (sendPending fuel c sid) :=
+  (sendPending_fl fuel g c sid h).wrOK (sendPending_out fuel c sid).1
+
+theorem flushFold_wrOK (g : Led) (m : Nat) (l : List Nat) : ∀ (acc : Conn × List OutFrame),
+    WrOK g m acc → acc.1.maxFrameSize = m →
+    WrOK g m (l.foldl (fun (acc : Conn × List OutFrame) sid =>
+      ((sendPending 100000 acc.1 sid).1, acc.2 ++ (sendPending 100000 acc.1 sid).2)) acc) := by
+  induction l with
+  | nil => intro acc h _; exact h
+  | cons x xs ih =>
+    intro acc h hm
+    simp only [List.foldl_cons]
+    apply ih
+    · have h2 := sendPending_wrOK 100000 (g.wrote acc.2) acc.1 x h.1
+      rw [hm] at h2
+      exact WrOK.append (c1 := acc.1) h h2
+    · simp only [sendPending_mfs, hm]
+
+theorem flushPending_wrOK (g : Led) (c : Conn) (h : FL g c) : WrOK g c.maxFrameSize (flushPending c) := by
+  rw [flushPending_eq]
+  apply flushFold_wrOK
+  · apply wrOK_nil
+    split
+    · exact h.winRel ⟨List.Sublist.refl _, rfl, rfl, rfl, rfl, fun _ hf => .inl hf⟩
+    · exact h
+  · split <;> rfl
+
+theorem flushPending_mfs (c : Conn) : (flushPending c).1.maxFrameSize = c.maxFrameSize := by
+  obtain ⟨p, w, q, a, hs⟩ := flushPending_shape c; rw [hs]
+
+/-- **`drain` against the ledgers** -/
+theorem drain_wrOK (g : Led) (c : Conn) (h : FL g c) : WrOK g c.maxFrameSize (drain c) := by
+  rw [drain_eq]
+  split
+  · have h1 : FL g { c with outQ := [], winTok := false } :=
+      h.winRel ⟨List.Sublist.refl _, rfl, rfl, rfl, rfl, fun _ hf => nomem hf⟩
+    have h2 := flushPending_wrOK g _ h1
+    have h3 : WrOK g c.maxFrameSize
+        ({ (flushPending { c with outQ := [], winTok := false }).1 with outQ := [] },
+          (flushPending { c with outQ := [], winTok := false }).2) :=
+      ⟨h2.1.winRel ⟨List.Sublist.refl _, rfl, rfl, rfl, rfl, fun _ hf => nomem hf⟩, h2.2.1, h2.2.2⟩
+    exact h3.pad h.outQ h2.1.outQ
+  · have h1 : WrOK g c.maxFrameSize ({ c with outQ := [] }, []) :=
+      wrOK_nil _ (h.winRel ⟨List.Sublist.refl _, rfl, rfl, rfl, rfl, fun _ hf => nomem hf⟩)
+    exact h1.pad h.outQ (fun _ hf => nomem hf)
+
+theorem drain_mfs (c : Conn) : (drain c).1.maxFrameSize = c.maxFrameSize := by
+  obtain ⟨p, w, a, hs⟩ := drain_shape c; rw [hs]
+
+/-- a frame without DATA octets in front -/
+theorem WrOK.cons {g : Led} {m : Nat} {c : Conn} {b : List OutFrame} (h : WrOK g m (c, b)) (f : OutFrame)
+    (hf : dataLen f = 0) : WrOK g m (c, f :: b) := by
+  have := h.pad (a := [f]) (d := []) (fun x hx => by simp only [List.mem_singleton] at hx; rw [hx]; exact hf)
+    (fun _ hx => nomem hx)
+  simpa using this
+
+/-- **`writeRequest` against the ledgers**: a new stream starts with the INITIAL_WINDOW_SIZE in force and nothing sent -/
+theorem writeRequest_wrOK (g : Led) (c : Conn) (r : ReqSpec) (h : FL g c) : WrOK g c.maxFrameSize (writeRequest c r) := by
+  rw [writeRequest_eq]
+  split
+  · exact wrOK_nil _ (h.winRel ⟨List.Sublist.refl _, rfl, rfl, rfl, rfl, fun _ hf => .inl hf⟩)
+  · have entUp : ∀ p ∈ c.pending, ∀ c' : Conn, c'.nextID = c.nextID + 2 → EntOK g c' p.1 p.2 := by
+      intro p hp c' hn
+      obtain ⟨a, b, d⟩ := h.ent p hp
+      exact ⟨a, by rw [hn]; omega, d⟩
+    split
+    · -- no body
+      refine WrOK.cons (wrOK_nil _ ?_) _ rfl
+      exact ⟨h.iws, h.iwsR, h.connR, h.conn, h.connLe, h.sorted, fun p hp => entUp p hp _ rfl,
+        fun sid hs => h.fresh sid (by simp only [wrOpen, updReq] at hs; omega), h.mfs, h.outQ⟩
+    · rename_i pb hpb
+      have hwin : pb.window = g.iws := by
+        rw [← h.iws]
+        unfold wrPending at hpb
+        split at hpb
+        · cases hpb
+        · simp only [Option.some.injEq] at hpb; rw [← hpb]
+        · simp only [Option.some.injEq] at hpb; rw [← hpb]
+      have h1 : FL g { wrOpen c r with pending := insertA c.pending c.nextID pb } := by
+        refine ⟨h.iws, h.iwsR, h.connR, h.conn, h.connLe, sortedA_insertA h.sorted _ _, ?_,
+          fun sid hs => h.fresh sid (by simp only [wrOpen, updReq] at hs; omega), h.mfs, h.outQ⟩
+        intro p hp
+        rcases (mem_insertA h.sorted _ _ p).mp hp with rfl | ⟨hp1, _⟩
+        · refine ⟨?_, by simp only [wrOpen, updReq]; omega, ?_⟩
+          · simp only; rw [hwin]; have := h.iwsR; unfold Rng; omega
+          · simp only; rw [hwin, h.fresh c.nextID (Nat.le_refl _)]
+            exact wok_new g.iws (g.strInc c.nextID)
+        · exact entUp p hp1 _ rfl
+      have h2 : WrOK g c.maxFrameSize
+          ((sendPending 100000 { wrOpen c r with pending := insertA c.pending c.nextID pb } c.nextID).1,
+           (sendPending 100000 { wrOpen c r with pending := insertA c.pending c.nextID pb } c.nextID).2) :=
+        sendPending_wrOK 100000 g _ c.nextID h1
+      exact WrOK.cons h2 _ rfl
+
+theorem writeRequest_mfs (c : Conn) (r : ReqSpec) : (writeRequest c r).1.maxFrameSize = c.maxFrameSize :=
+  (ctl_writeRequest c r).maxFrameSize
+
+/-! ## the read loop against the ledgers -/
+
+/-- WINDOW_UPDATE on the connection -/
+theorem fl_addWindow_conn {g : Led} {c : Conn} (h : FL g c) (inc : Nat) :
+    FL { g with connInc := g.connInc + inc } (addWindow c 0 inc) := by
+  have hR := h.connR
+  have h1 := h.conn
+  have h2 := h.connLe
+  have hle : addWin c.connWindow inc ≤ c.connWindow + inc := wrap32_le _ (by unfold Rng at hR; omega)
+  refine ⟨h.iws, h.iwsR, wrap32_rng _, ?_, ?_, h.sorted, ?_, h.fresh, h.mfs, h.outQ⟩
+  · show addWin c.connWindow inc ≤ _
+    simp only; omega
+  · simp only; omega
+  · intro p hp
+    obtain ⟨a, b, d⟩ := h.ent p hp
+    exact ⟨a, b, d⟩
+
+/-- WINDOW_UPDATE on a stream -/
+theorem fl_addWindow_stream {g : Led} {c : Conn} (h : FL g c) (sid inc : Nat) (hs : sid ≠ 0) :
+    FL { g with strInc := bump g.strInc sid inc } (addWindow c sid inc) := by
+  have h0 : (sid == 0) = false := by simpa using hs
+  simp only [addWindow, h0, Bool.false_eq_true, if_false]
+  refine ⟨h.iws, h.iwsR, h.connR, h.conn, h.connLe, ?_, ?_, h.fresh, h.mfs, h.outQ⟩
+  · exact sortedA_map h.sorted _ (fun p => by split <;> rfl)
+  · intro p' hp'
+    simp only [List.mem_map] at hp'
+    obtain ⟨p, hp, rfl⟩ := hp'
+    obtain ⟨a, b, d⟩ := h.ent p hp
+    by_cases hk : p.1 = sid
+    · have hk' : (p.1 == sid) = true := by simpa using hk
+      simp only [hk', if_true]
+      refine ⟨wrap32_rng _, b, ?_⟩
+      have := wok_wu d a inc
+      simpa [bump, hk, addWin, Int.add_sub_assoc, Int.add_assoc, Int.add_comm, Int.add_left_comm] using
+        this.mono (by simp only [bump, hk, if_true]; omega)
+    · have hk' : (p.1 == sid) = false := by simpa using hk
+      simp only [hk', Bool.false_eq_true, if_false]
+      refine ⟨a, b, ?_⟩
+      simpa [bump, hk] using d
+
+/-- a change of SETTINGS_INITIAL_WINDOW_SIZE -/
+theorem fl_applyInitialWindow {g : Led} {c : Conn} (h : FL g c) (size : Nat) (hsz : size ≤ 2147483647) :
+    FL { g with iws := size } (applyInitialWindow c size) := by
+  simp only [applyInitialWindow]
+  refine ⟨rfl, ⟨by simp only; omega, by simp only; omega⟩, h.connR, h.conn, h.connLe, ?_, ?_, h.fresh, h.mfs, h.outQ⟩
+  · exact sortedA_map h.sorted _ (fun p => rfl)
+  · intro p' hp'
+    simp only [List.mem_map] at hp'
+    obtain ⟨p, hp, rfl⟩ := hp'
+    obtain ⟨a, b, d⟩ := h.ent p hp
+    refine ⟨wrap32_rng _, b, ?_⟩
+    have := wok_settings (new := (size : Int)) d a h.iwsR ⟨by omega, by omega⟩
+    rw [h.iws]
+    exact this.mono (by simp only; omega)
+
+theorem applyPairs_mfs (ps : List (Nat × Nat)) : ∀ c : Conn, MfsOK c.maxFrameSize →
+    (∀ p ∈ ps, p.1 = Gen.c_MaxFrameSize → 16384 ≤ p.2 ∧ p.2 ≤ 16777215) → MfsOK (applyPairs c ps).maxFrameSize := by
+  induction ps with
+  | nil => intro c h _; exact h
+  | cons x xs ih =>
+    intro c h hp
+    obtain ⟨k, v⟩ := x
+    have hx := fun p hp' => hp p (List.mem_cons_of_mem _ hp')
+    simp only [applyPairs]
+    split
+    · exact ih _ h hx
+    · split
+      · exact ih _ h hx
+      · split
+        · rename_i hk
+          exact ih _ (hp (k, v) (List.mem_cons_self ..) (by simpa using hk)) hx
+        · exact ih _ h hx
+
+/-- SETTINGS (not an acknowledgement) -/
+theorem fl_handleSettings {g : Led} {c : Conn} (h : FL g c) (s : Frame.SettingsVal) (hok : SettingsOK s) :
+    FL (if s.hasWindowSize then { g with iws := s.windowSize } else g) (handleSettings c s) := by
+  rw [handleSettings_eq]
+  have hm := applyPairs_mfs s.pairs c h.mfs hok.pairs
+  obtain ⟨a, b, d, h1⟩ := applyPairs_shape s.pairs c
+  rw [h1] at hm ⊢
+  obtain ⟨e, f, k, h2⟩ := noteTableSizes_shape s.pairs { c with srvTableSize := a, maxStreams := b, maxFrameSize := d }
+  rw [h2]
+  have h3 : FL g { c with srvTableSize := a, maxStreams := b, maxFrameSize := d, encTableMin := e, encTableSize := f,
+                          encTableSet := k } :=
+    ⟨h.iws, h.iwsR, h.connR, h.conn, h.connLe, h.sorted, fun p hp => by obtain ⟨x, y, z⟩ := h.ent p hp; exact ⟨x, y, z⟩,
+      h.fresh, hm, h.outQ⟩
+  split
+  · exact (fl_applyInitialWindow h3 s.windowSize hok.win).winRel (winRel_queueOut _ _ rfl)
+  · exact h3.winRel (winRel_queueOut _ _ rfl)
+
+theorem winRel_afterGoAway (c : Conn) : WinRel c (afterGoAway c).1 := winRel_refuseAbove _ _
+
+/-- **one frame through the read loop**: the windows follow the ledgers -/
+theorem rdFrame_fl {g : Led} {c : Conn} (h : FL g c) (f : Frame.Frame) (hok : FrameOK f) :
+    FL (g.recv f) (rdFrame c f).1 := by
+  by_cases hs : f.stream = 0
+  · have hs' : (f.stream == 0) = true := by simpa using hs
+    cases hb : f.body with
+    | settings s =>
+      simp only [rdFrame, Led.recv, hs', hb, if_true, Bool.true_and]
+      cases ha : s.ack with
+      | true => simpa using h
+      | false =>
+        simp only [Bool.false_eq_true, if_false, Bool.not_false, Bool.true_and]
+        exact fl_handleSettings h s (hok s hb)
+    | windowUpdate inc =>
+      simp only [rdFrame, Led.recv, hs', hb, if_true]
+      exact fl_addWindow_conn h inc
+    | ping a d =>
+      simp only [rdFrame, Led.recv, hs', hb, if_true]
+      split
+      · exact h
+      · exact h.winRel (winRel_queueOut _ _ rfl)
+    | goAway last code d =>
+      simp only [rdFrame, Led.recv, hs', hb, if_true]
+      have h1 : ∀ c' : Conn, c'.pending = c.pending → c'.connWindow = c.connWindow → c'.streamWindow = c.streamWindow →
+          c'.nextID = c.nextID → c'.maxFrameSize = c.maxFrameSize → c'.outQ = c.outQ → FL g c' := by
+        intro c' e1 e2 e3 e4 e5 e6
+        exact h.winRel ⟨by rw [e1]; exact List.Sublist.refl _, e2, e3, e4, e5, by rw [e6]; exact fun _ hf => .inl hf⟩
+      split
+      · refine FL.winRel ?_ (winRel_setLastErr _ _)
+        exact h1 _ rfl rfl rfl rfl rfl rfl
+      · refine FL.winRel ?_ (winRel_afterGoAway _)
+        exact h1 _ rfl rfl rfl rfl rfl rfl
+    | data e d => simp only [rdFrame, Led.recv, hs', hb, if_true]; exact h
+    | headers a b p q => simp only [rdFrame, Led.recv, hs', hb, if_true]; exact h
+    | priority a b => simp only [rdFrame, Led.recv, hs', hb, if_true]; exact h
+    | rstStream a => simp only [rdFrame, Led.recv, hs', hb, if_true]; exact h
+    | pushPromise a b d => simp only [rdFrame, Led.recv, hs', hb, if_true]; exact h
+    | continuation a b => simp only [rdFrame, Led.recv, hs', hb, if_true]; exact h
+  · have hs' : (f.stream == 0) = false := by simpa using hs
+    have loop : ∀ c1 : Conn, FL g c1 → FL g (dispatchLoop c1 f).1 := fun c1 h1 => h1.winRel (winRel_dispatchLoop c1 f)
+    cases hb : f.body with
+    | windowUpdate inc =>
+      simp only [rdFrame, Led.recv, hs', hb, Bool.false_eq_true, if_false]
+      exact (fl_addWindow_stream h f.stream inc hs).winRel (winRel_dispatchLoop _ f)
+    | pushPromise a b d =>
+      simp only [rdFrame, Led.recv, hs', hb, Bool.false_eq_true, if_false]
+      exact h.winRel (winRel_setLastErr _ _)
+    | data e d =>
+      simp only [rdFrame, Led.recv, hs', hb, Bool.false_eq_true, if_false]
+      exact loop _ (h.winRel (winRel_consumeConnWindow _ _))
+    | settings s =>
+      simp only [rdFrame, Led.recv, hs', hb, Bool.false_eq_true, if_false, Bool.false_and]
+      exact loop _ h
+    | ping a d => simp only [rdFrame, Led.recv, hs', hb, Bool.false_eq_true, if_false]; exact loop _ h
+    | goAway a b d => simp only [rdFrame, Led.recv, hs', hb, Bool.false_eq_true, if_false]; exact loop _ h
+    | headers a b p q => simp only [rdFrame, Led.recv, hs', hb, Bool.false_eq_true, if_false]; exact loop _ h
+    | priority a b => simp only [rdFrame, Led.recv, hs', hb, Bool.false_eq_true, if_false]; exact loop _ h
+    | rstStream a => simp only [rdFrame, Led.recv, hs', hb, Bool.false_eq_true, if_false]; exact loop _ h
+    | continuation a b => simp only [rdFrame, Led.recv, hs', hb, Bool.false_eq_true, if_false]; exact loop _ h
+
+/-- the ledgers after the frames the read loop goes through (it stops as `rdFrames` stops) -/
+def recvFrames : List RdFrame → Conn → Led → Led
+  | [], _, g => g
+  | .unknown :: fs, c, g => recvFrames fs c g
+  | .bad _ _ :: _, _, g => g
+  | .frame f :: fs, c, g =>
+    if c.stuck then g
+    else if (rdFrame c f).2 then g.recv f else recvFrames fs (rdFrame c f).1 (g.recv f)
+
+theorem rdFrames_fl (fs : List RdFrame) : ∀ (g : Led) (c : Conn), FL g c → (∀ f, .frame f ∈ fs → FrameOK f) →
+    FL (recvFrames fs c g) (rdFrames fs c).1 := by
+  induction fs with
+  | nil => intro g c h _; exact h
+  | cons x xs ih =>
+    intro g c h hok
+    have hok' : ∀ f, .frame f ∈ xs → FrameOK f := fun f hf => hok f (List.mem_cons_of_mem _ hf)
+    cases x with
+    | unknown => simp only [rdFrames, recvFrames]; exact ih g c h hok'
+    | bad a b => simp only [rdFrames, recvFrames]; exact h.winRel (winRel_setLastErr _ _)
+    | frame f =>
+      rw [rdFrames_cons_frame]
+      simp only [recvFrames]
+      have h1 := rdFrame_fl h f (hok f (List.mem_cons_self ..))
+      split
+      · exact h
+      · split
+        · exact h1
+        · exact ih _ _ h1 hok'
+
+/-! ## one step of the connection, the ledgers beside it -/
+
+def outFrames : StepOut → List OutFrame
+  | .frames fs => fs
+  | _ => []
+
+/-- the ledgers after the read loop has gone through the frames of the event (only `bytes` events carry frames) -/
+def recvEvent (g : Led) (c : Conn) : Event → Led
+  | .bytes b => if c.stuck || c.dead then g else recvFrames (bytesSplit c b).1 { c with rdBuf := (bytesSplit c b).2 } g
+  | _ => g
+
+/-- the ledgers after the step: what was received, then what was written -/
+def gstep (g : Led) (c : Conn) (ev : Event) : Led := (recvEvent g c ev).wrote (outFrames (step c ev).2)
+
+/-- what one step establishes -/
+structure StepOK (g : Led) (c : Conn) (ev : Event) : Prop where
+  fl : FL (gstep g c ev) (step c ev).1
+  emit : Emit (recvEvent g c ev) (outFrames (step c ev).2)
+  size : ∀ f ∈ outFrames (step c ev).2, dataLen f ≤ (step c ev).1.maxFrameSize
+
+theorem winRel_same {c c' : Conn} (e1 : c'.pending = c.pending) (e2 : c'.connWindow = c.connWindow)
+    (e3 : c'.streamWindow = c.streamWindow) (e4 : c'.nextID = c.nextID) (e5 : c'.maxFrameSize = c.maxFrameSize)
+    (e6 : c'.outQ = c.outQ ∨ c'.outQ = []) : WinRel c c' := by
+  refine ⟨by rw [e1]; exact List.Sublist.refl _, e2, e3, e4, e5, ?_⟩
+  rcases e6 with e6 | e6 <;> rw [e6]
+  · exact fun _ hf => .inl hf
+  · exact fun _ hf => nomem hf
+
+theorem winRel_dieWith (c : Conn) (e : Err) : WinRel c (dieWith c e) := by
+  obtain ⟨l, hs⟩ := dieWith_shape c e
+  rw [hs]; exact winRel_same rfl rfl rfl rfl rfl (.inr rfl)
+
+theorem winRel_takeReq (c : Conn) (sid : Nat) : WinRel c (takeReq c sid) := by
+  obtain ⟨o, hs⟩ := takeReq_shape c sid
+  rw [hs]; exact winRel_same rfl rfl rfl rfl rfl (.inl rfl)
+
+/-- the frames reach the transport (the ledgers move) or the connection ends on the write error (they do not) -/
+theorem afterWrites_ok {g : Led} {m : Nat} {c : Conn} {fs : List OutFrame} (h : WrOK g m (c, fs)) (hm : c.maxFrameSize = m) :
+    FL (g.wrote (outFrames (afterWrites c fs).2)) (afterWrites c fs).1 ∧ Emit g (outFrames (afterWrites c fs).2) ∧
+    (∀ f ∈ outFrames (afterWrites c fs).2, dataLen f ≤ (afterWrites c fs).1.maxFrameSize) := by
+  obtain ⟨h1, h2, h3⟩ := h
+  rcases afterWrites_cases c fs with ⟨e, s, b, hh⟩ | ⟨e, s, hh⟩
+  · rw [hh]
+    exact ⟨h1.winRel (winRel_same rfl rfl rfl rfl rfl (.inl rfl)), h2, fun f hf => by rw [show _ = m from hm]; exact h3 f hf⟩
+  · rw [hh]
+    simp only [outFrames]
+    rw [Led.wrote_nil]
+    refine ⟨?_, fun s hs => absurd hs (by simp [dataOn]), fun f hf => nomem hf⟩
+    exact (h1.forget.winRel (winRel_same (c' := { c with enc := e, encTableSet := s }) rfl rfl rfl rfl rfl (.inl rfl))).winRel
+      (winRel_dieWith _ _)
+
+/-- a step that writes nothing and moves no window -/
+theorem stepOK_quiet {g : Led} {c : Conn} {ev : Event} (h : FL g c) (hr : recvEvent g c ev = g)
+    (hf : outFrames (step c ev).2 = []) (hw : WinRel c (step c ev).1) : StepOK g c ev := by
+  refine ⟨?_, ?_, ?_⟩
+  · unfold gstep; rw [hr, hf, Led.wrote_nil]; exact h.winRel hw
+  · rw [hf]; exact fun s hs => absurd hs (by simp [dataOn])
+  · rw [hf]; exact fun f hf => nomem hf
+
+theorem bytesSplit_ok (c : Conn) (b : Bytes) : ∀ f, .frame f ∈ (bytesSplit c b).1 → FrameOK f :=
+  fun f hf => splitFrames_ok _ _ f hf
+
+/-- **one step**: the windows follow the ledgers, every stream's DATA of the step is within its allowance,
+no DATA frame is longer than MAX_FRAME_SIZE -/
+theorem step_fl (g : Led) (c : Conn) (ev : Event) (h : FL g c) : StepOK g c ev := by
+  cases ev with
+  | read tag =>
+    rcases step_read_cases' c tag with hs | hs | ⟨e, q, hs⟩
+    · exact stepOK_quiet h rfl (by rw [hs]; rfl) (by rw [hs]; exact WinRel.refl c)
+    · exact stepOK_quiet h rfl (by rw [hs]; rfl) (by rw [hs]; exact WinRel.refl c)
+    · exact stepOK_quiet h rfl (by rw [hs]; rfl) (by rw [hs]; exact winRel_same rfl rfl rfl rfl rfl (.inl rfl))
+  | req r =>
+    by_cases hst : c.stuck = true
+    · exact stepOK_quiet h rfl (by rw [step_req, if_pos hst]; rfl) (by rw [step_req, if_pos hst]; exact WinRel.refl c)
+    · by_cases hd : c.dead = true
+      · have e : step c (.req r) = (resolve (withReq c r.tag) r.tag (c.lastErr.getD .connClosed), .dead) := by
+          rw [step_req, if_neg hst]; simp only [stepReq, hd, if_true]
+        exact stepOK_quiet h rfl (by rw [e]; rfl) (by rw [e]; exact winRel_same rfl rfl rfl rfl rfl (.inl rfl))
+      · have e : step c (.req r) = afterWrites (drain (writeRequest (withReq c r.tag) r).1).1
+            ((writeRequest (withReq c r.tag) r).2 ++ (drain (writeRequest (withReq c r.tag) r).1).2) := by
+          rw [step_req, if_neg hst]; simp only [stepReq, hd, Bool.false_eq_true, if_false]
+        have h0 : FL g (withReq c r.tag) := h.winRel (winRel_same rfl rfl rfl rfl rfl (.inl rfl))
+        have w1 : WrOK g c.maxFrameSize ((writeRequest (withReq c r.tag) r).1, (writeRequest (withReq c r.tag) r).2) :=
+          writeRequest_wrOK g _ r h0
+        have w2 : WrOK (g.wrote (writeRequest (withReq c r.tag) r).2) c.maxFrameSize
+            ((drain (writeRequest (withReq c r.tag) r).1).1, (drain (writeRequest (withReq c r.tag) r).1).2) := by
+          have := drain_wrOK _ _ w1.1
+          rw [writeRequest_mfs] at this
+          exact this
+        have w3 := afterWrites_ok (w1.append w2) (by rw [drain_mfs, writeRequest_mfs]; rfl)
+        refine ⟨?_, ?_, ?_⟩
+        · unfold gstep; simp only [recvEvent]; rw [e]; exact w3.1
+        · simp only [recvEvent]; rw [e]; exact w3.2.1
+        · rw [e]; exact w3.2.2
+  | bytes b =>
+    by_cases hst : c.stuck = true
+    · exact stepOK_quiet h (by simp [recvEvent, hst]) (by rw [step_bytes, if_pos hst]; rfl)
+        (by rw [step_bytes, if_pos hst]; exact WinRel.refl c)
+    · by_cases hd : c.dead = true
+      · have e : step c (.bytes b) = (c, .dead) := by rw [step_bytes, if_neg hst]; simp only [stepBytes, hd, if_true]
+        exact stepOK_quiet h (by simp [recvEvent, hd]) (by rw [e]; rfl) (by rw [e]; exact WinRel.refl c)
+      · have hst' : c.stuck = false := by simpa using hst
+        have hd' : c.dead = false := by simpa using hd
+        have hr : recvEvent g c (.bytes b) = recvFrames (bytesSplit c b).1 { c with rdBuf := (bytesSplit c b).2 } g := by
+          simp [recvEvent, hst', hd']
+        have h0 : FL g { c with rdBuf := (bytesSplit c b).2 } := h.winRel (winRel_same rfl rfl rfl rfl rfl (.inl rfl))
+        have h1 : FL (recvEvent g c (.bytes b)) (bytesRead c b).1 := by
+          rw [hr]; exact rdFrames_fl _ g _ h0 (bytesSplit_ok c b)
+        have quiet : ∀ c' o, step c (.bytes b) = (c', o) → outFrames o = [] → WinRel (bytesRead c b).1 c' →
+            StepOK g c (.bytes b) := by
+          intro c' o e ho hw
+          refine ⟨?_, ?_, ?_⟩
+          · unfold gstep; rw [e]; simp only; rw [ho, Led.wrote_nil]; exact h1.winRel hw
+          · rw [e]; simp only; rw [ho]; exact fun s hs => absurd hs (by simp [dataOn])
+          · rw [e]; simp only; rw [ho]; exact fun f hf => nomem hf
+        have es : step c (.bytes b) = stepBytes c b := by rw [step_bytes, if_neg hst]
+        unfold stepBytes at es
+        rw [if_neg hd] at es
+        split at es
+        · exact quiet _ _ es rfl (WinRel.refl _)
+        · split at es
+          · exact quiet _ _ es rfl ((winRel_dieWith _ .eof).trans (winRel_same rfl rfl rfl rfl rfl (.inl rfl)))
+          · split at es
+            · exact quiet _ _ es rfl (winRel_dieWith _ .eof)
+            · have w1 := drain_wrOK _ _ h1
+              have w3 := afterWrites_ok (c := (drain (bytesRead c b).1).1) (fs := (drain (bytesRead c b).1).2) w1
+                (drain_mfs _)
+              refine ⟨?_, ?_, ?_⟩
+              · unfold gstep; rw [es]; exact w3.1
+              · rw [es]; exact w3.2.1
+              · rw [es]; exact w3.2.2
+  | timeout tag =>
+    by_cases hst : c.stuck = true
+    · exact stepOK_quiet h rfl (by rw [step_timeout, if_pos hst]; rfl) (by rw [step_timeout, if_pos hst]; exact WinRel.refl c)
+    · have es : step c (.timeout tag) = stepTimeout c tag := by rw [step_timeout, if_neg hst]
+      unfold stepTimeout at es
+      split at es
+      · exact stepOK_quiet h rfl (by rw [es]; rfl) (by rw [es]; exact WinRel.refl c)
+      · rename_i r hr
+        have k1 : WinRel c (takeReq (deletePending (resolve c tag .timeout) r.sid) r.sid) :=
+          (WinRel.mk (c := c) (c' := deletePending (resolve c tag .timeout) r.sid) (eraseA_sublist _ _) rfl rfl rfl rfl
+            (fun _ hf => .inl hf)).trans (winRel_takeReq _ _)
+        split at es
+        · refine stepOK_quiet h rfl (by rw [es]; simp only; split <;> rfl)
+            (by rw [es]; exact winRel_same rfl rfl rfl rfl rfl (.inl rfl))
+        · split at es
+          · exact stepOK_quiet h rfl (by rw [es]; rfl) (by rw [es]; exact k1)
+          · have w1 : WrOK g c.maxFrameSize
+                (takeReq (deletePending (resolve c tag .timeout) r.sid) r.sid, [.rst r.sid Gen.c_StreamCanceled]) :=
+              WrOK.cons (wrOK_nil _ (h.winRel k1)) _ rfl
+            have w3 := afterWrites_ok w1 k1.maxFrameSize
+            refine ⟨?_, ?_, ?_⟩
+            · unfold gstep; simp only [recvEvent]; rw [es]; exact w3.1
+            · simp only [recvEvent]; rw [es]; exact w3.2.1
+            · rw [es]; exact w3.2.2
+  | close =>
+    by_cases hst : c.stuck = true
+    · exact stepOK_quiet h rfl (by rw [step_close, if_pos hst]; rfl) (by rw [step_close, if_pos hst]; exact WinRel.refl c)
+    · exact stepOK_quiet h rfl (by rw [step_close, if_neg hst]; rfl) (by rw [step_close, if_neg hst]; exact winRel_dieWith _ _)
+  | cut =>
+    by_cases hst : c.stuck = true
+    · exact stepOK_quiet h rfl (by rw [step_cut, if_pos hst]; rfl) (by rw [step_cut, if_pos hst]; exact WinRel.refl c)
+    · exact stepOK_quiet h rfl (by rw [step_cut, if_neg hst]; rfl) (by rw [step_cut, if_neg hst]; exact winRel_dieWith _ _)
+  | failwrite n =>
+    by_cases hst : c.stuck = true
+    · exact stepOK_quiet h rfl (by rw [step_failwrite, if_pos hst]; rfl)
+        (by rw [step_failwrite, if_pos hst]; exact WinRel.refl c)
+    · exact stepOK_quiet h rfl (by rw [step_failwrite, if_neg hst]; rfl)
+        (by rw [step_failwrite, if_neg hst]; exact winRel_same rfl rfl rfl rfl rfl (.inl rfl))
+
 end H2.Client
